@@ -127,6 +127,45 @@ def family_order(tier, seed, n=None):
         # the same program without the directive: identical truth table (the directive has no hard meaning)
         out.append({"id": "O20n/%s/%s/%d" % (kind, "core" if core else "s%d" % seed, t), "world": world_no,
                     "ops": [{"op": "construct", "o": "o1"}, {"op": "probe", "call": wcall(), "paths": paths}], "tags": []})
+    mp = 6000 if tier == "quick" else 60000
+    # (a) the set of directives changes between calls of one object: opposite solve_order statements in two blocks that
+    #     are toggled with constraint_mode - each call must honour exactly the enabled one
+    for t in range(2 if tier == "quick" else 6):
+        rnd = random.Random(2030 + t)
+        fields = [fld("a", 2, False), fld("b", 2, False)]
+        rel = rnd.choice(["lt", "le", "ne"])
+        blocks = [blk("c1", [E(B(rel, F("a"), F("b")))]),
+                  blk("oa", [{"k": "order", "a": ["a"], "b": ["b"]}]),
+                  blk("ob", [{"k": "order", "a": ["b"], "b": ["a"]}])]
+        world = one(fields, blocks)
+        ops = [{"op": "construct", "o": "o1"}, {"op": "cmode", "o": "o1", "b": "ob", "en": False},
+               {"op": "explore", "call": mcall(), "paths": ["o1.a", "o1.b"], "uniform": ["o1.a"], "max_paths": mp},
+               {"op": "cmode", "o": "o1", "b": "oa", "en": False}, {"op": "cmode", "o": "o1", "b": "ob", "en": True},
+               {"op": "explore", "call": mcall(), "paths": ["o1.a", "o1.b"], "uniform": ["o1.b"], "max_paths": mp},
+               {"op": "cmode", "o": "o1", "b": "ob", "en": False}, {"op": "cmode", "o": "o1", "b": "oa", "en": True},
+               {"op": "explore", "call": mcall(), "paths": ["o1.a", "o1.b"], "uniform": ["o1.a"], "max_paths": mp}]
+        out.append({"id": "O20/toggle/%d" % t, "world": world, "ops": ops, "tags": []})
+    # (b) a chain a -> b -> c whose first variable is pinned by a constraint: the marginal of the MIDDLE variable is then its
+    #     conditional distribution and must not depend on how many values of the last variable accompany it
+    for t in range(2 if tier == "quick" else 6):
+        rnd = random.Random(2040 + t)
+        fields = [fld("a", 2, False), fld("b", 2, False), fld("c", 2, False)]
+        body = [E(B("eq", F("a"), lit(rnd.randrange(2)))), E(B(rnd.choice(["le", "lt"]), F("b"), F("c"))) if t % 2 == 0 else E(B("ge", F("b"), F("c"))),
+                {"k": "order", "a": ["a"], "b": ["b"]}, {"k": "order", "a": ["b"], "b": ["c"]}]
+        world = one(fields, [blk("c1", body)])
+        ops = [{"op": "construct", "o": "o1"},
+               {"op": "explore", "call": mcall(), "paths": ["o1.a", "o1.b", "o1.c"], "uniform": ["o1.b"], "max_paths": mp}]
+        out.append({"id": "O20/chainmid/%d" % t, "world": world, "ops": ops, "tags": []})
+    # (c) a signed earlier variable whose feasible range straddles zero and is not a power-of-two wide
+    for t, (lo_, hi_) in enumerate([(-3, 2), (-2, 1), (-3, 3)][:2 if tier == "quick" else 3]):
+        fields = [fld("a", 3, True), fld("b", 2, False)]
+        body = [E(B("ge", F("a"), lit(lo_))), E(B("le", F("a"), lit(hi_))),
+                {"k": "imp", "c": B("lt", F("a"), lit(0)), "body": [E(B("eq", F("b"), lit(1)))]},
+                {"k": "order", "a": ["a"], "b": ["b"]}]
+        world = one(fields, [blk("c1", body)])
+        ops = [{"op": "construct", "o": "o1"},
+               {"op": "explore", "call": mcall(), "paths": ["o1.a", "o1.b"], "uniform": ["o1.a"], "max_paths": mp}]
+        out.append({"id": "O20/signed/%d" % t, "world": world, "ops": ops, "tags": []})
     # program pairs that agree on Feasible(a) and differ only in how many b accompany each a
     for t in range(2 if tier == "quick" else 8):
         rnd = random.Random(2021 + t)
